@@ -268,3 +268,27 @@ def trace(data, params, functions, targets=None, **kw):
         if c not in res.columns:
             res[c] = data[c].to_numpy()
     return res, nodes, roots, dag, fn
+
+
+def feasible_targets(functions, data_cols, candidates=None, data=None, params=None):
+    """Those of the candidate targets (default: DEFAULT_TARGETS) that can be computed from the given data
+    columns at this date (before 2015 the full default set is not computable)."""
+    import inspect
+
+    out = []
+    cols = set(data_cols)
+    for t in (candidates or DEFAULT_TARGETS):
+        try:
+            nodes, roots, dag, fn = graph(functions, list(data_cols), [t])
+        except Exception:  # noqa: BLE001
+            continue
+        missing = [r for r in roots if r not in cols and not r.endswith("_params")]
+        if missing:
+            continue
+        if data is not None:
+            try:
+                simulate(data, params, functions, [t])
+            except Exception:  # noqa: BLE001
+                continue
+        out.append(t)
+    return out
